@@ -95,8 +95,11 @@ def run_scenario(sc):
     for n in sc["names"]:
         trees, exc = [], None
         try:
+            lk = None
             for b in beh[n]:
-                trees.append(P.Lark(grammar, start="fbody", parser="earley").parse(b))
+                if lk is None or len(sc["names"]) <= 12:      # small scenarios: one parser object per part
+                    lk = P.Lark(grammar, start="fbody", parser="earley")
+                trees.append(lk.parse(b))
         except Exception as e:
             trees, exc = [], P.ParserException(e)
         seq.append(summary(P.ParsedInsn(n, trees, beh[n], exc)))
